@@ -779,3 +779,135 @@ def optkeep(ctx, only=None):
                "reset, so the result depends on the order of the option calls"
                % (p.split("::")[-1], "; ".join(bad)))
     ctx.floor("OPTKEEP", "by-value builder methods", n, 2 if only else 6)
+
+
+# Placeholder grammars, given as probe tables: (function, must match with these groups, must not match).
+# The pattern strings are read from the MIR constants handed to Regex::new and evaluated with
+# Python's `re` (the constructs used - classes, groups, `?`, `+`, anchors - mean the same in the
+# `regex` crate). This evaluates a constant of the program, it does not run vibrato.
+REGEX_PROBES = {
+    "vibrato::trainer::feature_extractor::FeatureExtractor::new": [
+        # (probe, full-match expected, digit group expected)
+        ("%F[0]", True, "0"), ("%F[7]", True, "7"), ("%F[12]", True, "12"), ("%F?[3]", True, "3"),
+        ("%F?[105]", True, "105"), ("%t", True, None),
+        ("%L[0]", True, "0"), ("%L[10]", True, "10"), ("%L?[2]", True, "2"), ("%L?[31]", True, "31"),
+        ("%R[0]", True, "0"), ("%R[10]", True, "10"), ("%R?[2]", True, "2"), ("%R?[31]", True, "31"),
+    ],
+    "vibrato::trainer::feature_rewriter::FeatureRewriterBuilder::new": [
+        ("$1", True, "1"), ("$12", True, "12"), ("$", False, None), ("a$1", False, None), ("$1x", False, None),
+    ],
+    "vibrato::mecab::generate_bigram_info": [
+        ("12 abc,def", True, "12"), ("0 BOS/EOS", True, "0"), ("-1.5\tB00:x/y", True, None),
+        ("0.25\tU1:a", True, None),
+    ],
+}
+
+
+def regex_grammar(ctx, only=None):
+    """REGEX: the placeholder / line grammars are regex constants. Every probe of the table must
+    be matched in full by exactly the patterns of its function (one of them), with the number
+    captured whole (`%L[10]` is index 10, not `%L[1` + `0]`)."""
+    import re as _re
+    crate = ctx.facts("A").lib
+    E = Effects(crate)
+    total = 0
+    for p, probes in REGEX_PROBES.items():
+        if only and not only(p):
+            continue
+        f = crate.fns.get(p)
+        if f is None or not f.body:
+            raise EngineError("REGEX: anchor lost: %s" % p)
+        fa = E.fa(p)
+        pats = []
+        for b, t in fa.calls():
+            if any(strip_generics(x).endswith("Regex::new") for x in callee_paths(t)):
+                o = fa.origin(t["args"][0])
+                if o[0] == "const" and "str" in o[1]:
+                    pats.append(o[1]["str"])
+                else:
+                    raise EngineError("REGEX: non-literal pattern at %s" % fa.loc(b))
+        if not pats:
+            raise EngineError("REGEX: no Regex::new in %s" % p)
+        comp = []
+        for s in pats:
+            try:
+                comp.append((s, _re.compile(s)))
+            except _re.error as e:
+                raise EngineError("REGEX: pattern %r is outside the common subset (%s)" % (s, e))
+        for probe, want, digits in probes:
+            total += 1
+            hits = []
+            for s, c in comp:
+                m = c.search(probe)
+                if m and m.group(0) == probe:
+                    hits.append((s, m))
+            ok = bool(hits) == want
+            if ok and want and digits is not None:
+                ok = any(digits in m.groups() for s, m in hits)
+            ctx.ob("REGEX", "%s|%s" % (p, probe.replace("\t", "<TAB>")), ok, "%s:%s" % (f.file, f.line),
+                   "%r is %s by the patterns of %s" % (probe, "accepted" if want else "rejected", p.split("::")[-2])
+                   if ok else
+                   "%r should be %s by the patterns %s of %s%s: placeholders or lines of this shape "
+                   "are silently left as literal text / misread"
+                   % (probe, "matched in full" if want else "rejected", pats, p.split("::")[-2],
+                      (" with the number %s captured whole" % digits) if digits else ""))
+    ctx.floor("REGEX", "grammar probes", total, 4)
+
+
+def regex_trainer(ctx):
+    regex_grammar(ctx, lambda p: "trainer::" in p)
+
+
+def regex_mecab(ctx):
+    regex_grammar(ctx, lambda p: "mecab" in p or "feature_extractor" in p)
+
+
+def csvsplit(ctx):
+    """CSVSPLIT (C18, C17): a feature string is a CSV row (cells may be quoted and contain
+    commas). Everything that turns a feature string into a list of features goes through
+    utils::parse_csv_row; `str::split(',')` shifts the column numbers that templates and rewrite
+    rules refer to."""
+    crate = ctx.facts("A").lib
+    E = Effects(crate)
+    users = []
+    bad = []
+    for p, f in sorted(crate.fns.items()):
+        if not f.body or f.krate != "vibrato" or "trainer" not in p and "unknown" not in p and "mecab" not in p:
+            continue
+        fa = E.fa(p)
+        S = None
+        for b, t in fa.calls():
+            ps = [strip_generics(x) for x in callee_paths(t)]
+            if any(x.endswith("utils::parse_csv_row") for x in ps):
+                users.append(p)
+            if any(x.rsplit("::", 1)[-1] in ("split", "splitn", "rsplit", "split_terminator") and "str" in x for x in ps) \
+                    and len(t["args"]) >= 2:
+                o = fa.origin(t["args"][1])
+                ch = o[1].get("char", o[1].get("int")) if o[0] == "const" else None
+                sv = o[1].get("str") if o[0] == "const" else None
+                if ch in (",", 44) or sv == ",":
+                    # splitting something that is a feature string? parameters / fields named *feature*
+                    S = S or Sym(E, fa)
+                    src = show(S.operand(t["args"][0]))
+                    names = fa.fn.local_names()
+                    pl = op_place(t["args"][0])
+                    nm = ""
+                    cur = pl
+                    for _ in range(6):
+                        if cur is None:
+                            break
+                        if cur["l"] in names:
+                            nm = names[cur["l"]]
+                            break
+                        d = fa.single_def(cur["l"])
+                        if d is None or d[2] != "assign":
+                            break
+                        cur = op_place(d[3]["op"]) if d[3]["k"] == "use" else d[3]["place"] if d[3]["k"] == "ref" else None
+                    if "feature" in nm or "feature" in src:
+                        bad.append("%s splits `%s` on ',' (%s)" % (p.split("::")[-1], nm or src, fa.loc(b)))
+    ctx.floor("CSVSPLIT", "parse_csv_row call sites", len(users), 3)
+    ctx.ob("CSVSPLIT", "features-parsed-as-csv", not bad, "vibrato/src/trainer*",
+           "feature strings are split with utils::parse_csv_row (%d call sites), never with a bare "
+           "split(',')" % len(users) if not bad else
+           "a feature string is split on ',' without CSV unquoting: %s; a quoted cell containing a "
+           "comma shifts every later column" % "; ".join(bad))
